@@ -121,6 +121,9 @@ def run(ctx):
 
 def replay(ctx, rp):
     """run the real loop against the replay file's answer script, print its transcript and what the checkers say"""
+    if str(rp.get("engine") or (rp.get("first_difference") or {}).get("engine") or "").startswith("realloop"):
+        from engines import realloop   # second engine of this property; check.py hands every replay to the first
+        return realloop.replay(ctx, rp)
     inp = rp.get("input") or (rp.get("first_difference") or {}).get("input") or {}
     if inp.get("layout") is None or not inp.get("script"):
         print("replay names no concrete input (kind=%s): %s" % (rp.get("kind"), rp.get("broken")))
